@@ -46,8 +46,8 @@ class RangeCrc:
 def crcf(eng, folder):
     if eng.intmode == "bv":
         s = z3.BitVecSort(eng.W)
-        return z3.Function("CRCF_%d" % folder, s, s, z3.BitVecSort(32))
-    return z3.Function("CRCF_%d" % folder, z3.IntSort(), z3.IntSort(), z3.IntSort())
+        return z3.Function("CRCF_%s" % folder, s, s, z3.BitVecSort(32))
+    return z3.Function("CRCF_%s" % folder, z3.IntSort(), z3.IntSort(), z3.IntSort())
 
 
 def crc_of_range(eng, folder, start, end):
@@ -65,6 +65,14 @@ def range_crc_term(eng, rc):
 
 def crc32_model(eng, data, value=0, blocksize=None):
     """calculate_crc32 override for read sessions"""
+    from vf.harness.session import Blob
+
+    if isinstance(data, Blob) and isinstance(data.tag, tuple) and data.tag[0] == "packed":
+        # bytes [p, p+n) of the archive file's packed area
+        p = data.tag[1]
+        if isinstance(value, RangeCrc):
+            return RangeCrc("P", value.start, eng.binop(ast.Add(), value.end, data.length))
+        return RangeCrc("P", p, eng.binop(ast.Add(), p, data.length))
     if isinstance(data, Chunk):
         if isinstance(value, RangeCrc):
             # sequential decoder output: contiguous by construction of the stub
@@ -101,16 +109,14 @@ class StubDecompressor(Native):
         eng.assume(eng.compare(ast.LtE(), r, remaining))
         if not (not is_sym(max_length) and max_length < 0):
             eng.assume(z3.Or(eng.lift(max_length) < 0, eng.lift(r) <= eng.lift(max_length)))
-        if w.progress == "live":
-            # a working decoder on an intact stream makes progress whenever it is asked for >= 1 byte and output remains
-            eng.assume(z3.Implies(z3.And(eng.lift(remaining) > 0, eng.lift(max_length) != 0), eng.lift(r) >= 1))
-        else:
-            if eng.branch(eng.compare(ast.Eq(), r, 0)):
+        # a working decoder on an intact stream makes progress whenever it is asked for >= 1 byte and output remains
+        eng.assume(z3.Implies(z3.And(eng.lift(remaining) > 0, eng.lift(max_length) != 0), eng.lift(r) >= 1))
+        if w.progress == "exhausted-aware":
+            # an exhausted decoder answers with nothing, forever: count it so that a spin becomes a finite outcome
+            if eng.branch(eng.compare(ast.LtE(), remaining, 0)):
                 self.stalls += 1
-                if self.stalls >= w.stall_limit:
-                    raise NoProgress("decoder of folder %d returned nothing %d times in a row" % (self.k, self.stalls))
-            else:
-                self.stalls = 0
+                if self.stalls >= w.stall_limit and w.consume == "all-at-once":
+                    raise NoProgress("decoder of folder %d is exhausted and was asked %d more times" % (self.k, self.stalls))
         if w.consume == "all-at-once":
             c = eng.binop(ast.Sub(), self.input_size, self.consumed)  # the whole packed stream is read by the first call
         else:
@@ -256,6 +262,11 @@ def setup_read(eng, entries, layout, progress="live", name=None, password=None, 
         for fi, fo in enumerate(ms.attrs["unpackinfo"].attrs["folders"]):
             world.coder_ids[id(fo.attrs["coders"])] = fi
     world.folder_of_coders = lambda coders: world.coder_ids[id(coders)]
+    if intact and layout.get("packcrc"):
+        for j, c in enumerate(layout["packcrcs"]):
+            if layout.get("packcrc_defined", [True] * len(layout["packcrcs"]))[j]:
+                st = world.pack_start[j]
+                eng.assume(eng.compare(ast.Eq(), crc_of_range(eng, "P", st, eng.binop(ast.Add(), st, layout["packsizes"][j])), c))
     if intact:
         for i, (fi, off, size) in world.member_range.items():
             e = entries[i]
